@@ -52,40 +52,63 @@ Proof. destruct x; repeat split; reflexivity. Qed.
 
 (* ---------------------------------------------------------------------------------------- *)
 (* validation *)
-Lemma validation_spec :
-  (forall p, bernoulli_rejects (FOrd p) = false <-> (0 <= p <= ONE_ORD)%Z) /\
-  (forall lo up, uniform_rejects (FOrd lo) (FOrd up) = false <-> (lo <= up)%Z) /\
-  (forall sd, normal_rejects (FOrd sd) = false <-> (0 < sd)%Z).
+Lemma fge_ord a b : fge (FOrd a) (FOrd b) = true <-> (b <= a)%Z.
+Proof. unfold fge. apply fle_ord. Qed.
+
+Lemma span_finite_bounds a b : span_finite (FOrd a) (FOrd b) = true ->
+  (Z.abs a < INF_ORD)%Z /\ (Z.abs b < INF_ORD)%Z.
 Proof.
-  split; [|split].
-  - intro p. unfold bernoulli_rejects, fzero, fone.
-    pose proof (flt_ord p 0) as H1. pose proof (fgt_ord p ONE_ORD) as H2.
-    destruct (flt (FOrd p) (FOrd 0)), (fgt (FOrd p) (FOrd ONE_ORD)); cbn [orb]; split; intro H;
-      try discriminate; try reflexivity.
-    + exfalso. assert (p < 0)%Z by (apply H1; reflexivity). lia.
-    + exfalso. assert (p < 0)%Z by (apply H1; reflexivity). lia.
-    + exfalso. assert (p > ONE_ORD)%Z by (apply H2; reflexivity). lia.
-    + split.
-      * destruct (Z.lt_ge_cases p 0) as [Hlt|Hge]; [|exact Hge]. apply H1 in Hlt. discriminate.
-      * destruct (Z.le_gt_cases p ONE_ORD) as [Hle|Hgt]; [exact Hle|]. apply Z.lt_gt, H2 in Hgt. discriminate.
-  - intros lo up. unfold uniform_rejects. apply flt_ord_false.
-  - intro sd. unfold normal_rejects, fzero. pose proof (fle_ord sd 0) as H.
-    destruct (fle (FOrd sd) (FOrd 0)); split; intro H'; try discriminate; try reflexivity.
-    + exfalso. assert (sd <= 0)%Z by (apply H; reflexivity). lia.
-    + destruct (Z.lt_ge_cases 0 sd) as [Hlt|Hge]; [exact Hlt|]. apply H in Hge. discriminate.
+  unfold span_finite. intro H. apply andb_prop in H. destruct H as [H _].
+  apply andb_prop in H. destruct H as [H1 H2]. apply Z.ltb_lt in H1, H2. split; assumption.
 Qed.
 
-(* NaN parameters pass every check, because every comparison with NaN is false. *)
-Lemma nan_accepted :
-  bernoulli_rejects FNaN = false /\
-  (forall x, uniform_rejects FNaN x = false /\ uniform_rejects x FNaN = false) /\
-  normal_rejects FNaN = false.
+(* The front ends accept EXACTLY: a non-NaN p with 0 <= p <= 1; non-NaN finite bounds with
+   lower <= upper whose binary32 difference is finite; a non-NaN sd > 0. *)
+Lemma validation_spec :
+  (forall p, bernoulli_rejects p = false <-> exists z, p = FOrd z /\ (0 <= z <= ONE_ORD)%Z) /\
+  (forall lo up, uniform_rejects lo up = false <->
+     exists a b, lo = FOrd a /\ up = FOrd b /\ (a <= b)%Z /\ span_finite (FOrd a) (FOrd b) = true) /\
+  (forall sd, normal_rejects sd = false <-> exists z, sd = FOrd z /\ (0 < z)%Z).
+Proof.
+  split; [|split].
+  - intro p. unfold bernoulli_rejects. rewrite negb_false_iff, andb_true_iff. destruct p as [|z].
+    + split; [intros [H _]; discriminate|intros [z [H _]]; discriminate].
+    + unfold fzero, fone. rewrite fge_ord, fle_ord. split.
+      * intro H. exists z. split; [reflexivity|exact H].
+      * intros [z' [E H]]. inversion E; subst z'. exact H.
+  - intros lo up. unfold uniform_rejects. rewrite orb_false_iff, !negb_false_iff.
+    destruct lo as [|a], up as [|b]; try (split; [intros [H _]; discriminate|intros [a' [b' [E1 [E2 _]]]]; discriminate]).
+    rewrite fle_ord. split.
+    + intros [H1 H2]. exists a, b. repeat split; assumption.
+    + intros [a' [b' [E1 [E2 [H1 H2]]]]]. inversion E1; inversion E2; subst a' b'. split; assumption.
+  - intro sd. unfold normal_rejects. rewrite negb_false_iff. destruct sd as [|z].
+    + split; [discriminate|intros [z [H _]]; discriminate].
+    + unfold fzero. rewrite fgt_ord. split.
+      * intro H. exists z. split; [reflexivity|lia].
+      * intros [z' [E H]]. inversion E; subst z'. lia.
+Qed.
+
+(* in particular NaN parameters are rejected by every front end ... *)
+Lemma nan_rejected :
+  bernoulli_rejects FNaN = true /\
+  (forall x, uniform_rejects FNaN x = true /\ uniform_rejects x FNaN = true) /\
+  normal_rejects FNaN = true.
 Proof. split; [reflexivity|split; [|reflexivity]]. intro x. destruct x; split; reflexivity. Qed.
 
-(* so do infinite bounds and an infinite standard deviation *)
-Lemma inf_accepted :
-  uniform_rejects (FOrd (- INF_ORD)) (FOrd INF_ORD) = false /\ normal_rejects (FOrd INF_ORD) = false.
-Proof. split; reflexivity. Qed.
+(* ... and so are infinite bounds and finite bounds whose difference overflows binary32
+   (-3e38f = ordinal -2137108966, 3e38f = 2137108966; FLT_MAX has ordinal 2139095039) *)
+Lemma nonfinite_span_rejected :
+  (forall x, uniform_rejects (FOrd (- INF_ORD)) x = true /\ uniform_rejects x (FOrd INF_ORD) = true) /\
+  uniform_rejects (FOrd (-2137108966)) (FOrd 2137108966) = true /\
+  uniform_rejects (FOrd (-2139095039)) (FOrd 2139095039) = true /\
+  uniform_rejects (FOrd (-2130706431)) (FOrd 2130706431) = false.
+Proof.
+  split; [|vm_compute; repeat split; reflexivity].
+  intro x. destruct x as [|z]; [split; reflexivity|]. unfold uniform_rejects. split.
+  - apply orb_true_iff. right. reflexivity.
+  - apply orb_true_iff. right. unfold span_finite.
+    change (Z.abs INF_ORD <? INF_ORD)%Z with false. rewrite andb_false_r. reflexivity.
+Qed.
 
 (* a request is rejected exactly when its validation fails, and then no draw is made *)
 Lemma step_rejected {G} (O : oracle G) g r :
@@ -124,20 +147,23 @@ Qed.
 
 Lemma uniform_fixup_range {G} (O : oracle G) (HO : oracle_ok O) g lo up n ys g' :
   step O g (RUnif (FOrd lo) (FOrd up) n) = (Values ys, g') ->
-  (lo <= up)%Z /\ length ys = N.to_nat n /\
+  ((lo <= up)%Z /\ (Z.abs lo < INF_ORD)%Z /\ (Z.abs up < INF_ORD)%Z) /\ length ys = N.to_nat n /\
   Forall (fun y => exists z, y = FOrd z /\
                    ((lo < up)%Z -> (lo < z <= up)%Z) /\ (lo = up -> z = up)) ys /\
   (* nothing else is changed: a draw different from lower is delivered as drawn *)
   Forall2 (fun x y => x = y \/ (x = FOrd lo /\ y = FOrd up))
           (fst (o_unif O (FOrd lo) (FOrd up) n g)) ys.
 Proof.
-  cbn [step]. destruct (uniform_rejects (FOrd lo) (FOrd up)) eqn:Ev; [discriminate|].
-  apply (proj1 (proj2 validation_spec)) in Ev.
+  cbn [step]. destruct (uniform_rejects (FOrd lo) (FOrd up)) eqn:Ev0; [discriminate|].
+  assert (Ev : (lo <= up)%Z /\ (Z.abs lo < INF_ORD)%Z /\ (Z.abs up < INF_ORD)%Z).
+  { apply (proj1 (proj2 validation_spec)) in Ev0. destruct Ev0 as [a [b [E1 [E2 [Hle Hsp]]]]].
+    inversion E1; inversion E2; subst a b. split; [exact Hle|]. apply span_finite_bounds. exact Hsp. }
+  destruct Ev as [Ev Hfin].
   pose proof (ok_unif_len O HO (FOrd lo) (FOrd up) n g) as Hlen.
   pose proof (ok_unif_range O HO lo up n g) as Hr.
   destruct (o_unif O (FOrd lo) (FOrd up) n g) as [xs g1]. cbn [fst] in *.
   intro H. inversion H; subst ys g'; clear H.
-  split; [exact Ev|]. split; [rewrite map_length; exact Hlen|]. split.
+  split; [split; [exact Ev|exact Hfin]|]. split; [rewrite map_length; exact Hlen|]. split.
   - apply Forall_forall. intros y Hy. apply in_map_iff in Hy. destruct Hy as [x [<- Hx]].
     destruct (Hr x Ev Hx) as [z [-> Hz]].
     destruct (Z.eq_dec lo up) as [->|Hne].
@@ -307,8 +333,9 @@ Lemma gumbel_uniform_range (HO : oracle_ok Og) mu beta n g :
     gumbel O C Og mu beta n g = (Some (map (fun u => gumbel_elem O mu beta (offp C u)) us), g').
 Proof.
   destruct (step Og g (RUnif fzero (FOrd GUMBEL_UP_ORD) n)) as [[|us] g'] eqn:Es.
-  - exfalso. cbn [step] in Es. change (uniform_rejects fzero (FOrd GUMBEL_UP_ORD)) with false in Es.
-    destruct (o_unif Og fzero (FOrd GUMBEL_UP_ORD) n g). discriminate.
+  - exfalso. cbn [step] in Es.
+    assert (E : uniform_rejects fzero (FOrd GUMBEL_UP_ORD) = false) by (vm_compute; reflexivity).
+    rewrite E in Es. destruct (o_unif Og fzero (FOrd GUMBEL_UP_ORD) n g). discriminate.
   - exists us, g'. split; [reflexivity|].
     destruct (uniform_fixup_range Og HO g 0 GUMBEL_UP_ORD n us g' Es) as [_ [Hl [Hf _]]].
     split; [exact Hl|]. split.
@@ -375,24 +402,17 @@ Proof.
     cbn [nth]; rewrite ?prodN_cons, ?prodN_nil in *; repeat split; try lia; try assumption.
 Qed.
 
-Lemma matrix_sum_no_wrap s : wf s -> is_matrix s = true -> volume s < U32MAX ->
-  fan_sum_2d s = get s 0 + get s 1.
-Proof.
-  intros W Hm Hv. unfold fan_sum_2d. apply wrap32_small.
-  unfold is_matrix in Hm. apply N.leb_le in Hm.
-  pose proof (wf_volume s W) as Hvol. pose proof (wf_pos s W) as Hp.
-  get_to_nth. unfold depth in *. rewrite Hvol in Hv.
-  destruct (dims s) as [|a [|b [|c r]]]; cbn [length] in Hm; try (exfalso; lia);
-    repeat match goal with H : Forall _ (_ :: _) |- _ => inversion H; subst; clear H end;
-    cbn [nth]; rewrite ?prodN_cons, ?prodN_nil in Hv; unfold U32MAX, P32 in *; nia.
-Qed.
-
+(* the Conv2D fan definition; for an admissible shape no product exceeds the volume and the
+   sum stays below 2^33, so the double arithmetic of the code is exact *)
 Lemma conv2d_fans s : wf s -> depth s <= 4 ->
   conv_fan_in s = get s 0 * get s 1 * get s 2 /\
   conv_fan_out s = get s 0 * get s 1 * get s 3 /\
-  (2 * volume s < P32 -> conv_fan_sum s = get s 0 * get s 1 * get s 2 + get s 0 * get s 1 * get s 3).
+  conv_fan_sum s = get s 0 * get s 1 * get s 2 + get s 0 * get s 1 * get s 3 /\
+  get s 0 * get s 1 <= volume s /\ conv_fan_in s <= volume s /\ conv_fan_out s <= volume s /\
+  0 < conv_fan_sum s < 2 * P32.
 Proof.
   intros W Hd. destruct (get4_volume s W Hd) as [Hv [H0 [H1 [H2 [H3 Hlt]]]]].
+  unfold conv_fan_sum, conv_fan_in, conv_fan_out.
   set (a := get s 0) in *. set (b := get s 1) in *. set (c := get s 2) in *. set (d := get s 3) in *.
   assert (Hmono : forall x y, 1 <= y -> x <= x * y).
   { intros x y Hy. rewrite <- (N.mul_1_r x) at 1. apply N.mul_le_mono_l. exact Hy. }
@@ -401,27 +421,41 @@ Proof.
   assert (Habc : a * b * c <= volume s) by (rewrite Hv; apply Hmono; lia).
   assert (Habd : a * b * d <= volume s).
   { rewrite Hv. replace (a * b * c * d) with (a * b * d * c) by lia. apply Hmono. lia. }
-  assert (Ein : conv_fan_in s = a * b * c).
-  { unfold conv_fan_in. fold a b c. rewrite (wrap32_small (a * b)) by lia. apply wrap32_small. lia. }
-  assert (Eout : conv_fan_out s = a * b * d).
-  { unfold conv_fan_out. fold a b d. rewrite (wrap32_small (a * b)) by lia. apply wrap32_small. lia. }
-  split; [exact Ein|]. split; [exact Eout|].
-  intro H2v. unfold conv_fan_sum. rewrite Ein, Eout. apply wrap32_small. lia.
+  assert (Hpos : 0 < a * b * c) by nia.
+  repeat split; try reflexivity; try assumption; unfold P32 in *; lia.
 Qed.
 
-(* the uint32 sums DO wrap for admissible shapes: fan_in + fan_out = 2^32 = 0 (mod 2^32), which
-   makes the Xavier parameter  scale * sqrt(c / 0) *)
-Lemma fan_sum_wraps :
-  (exists s, mk_shape [65536; 32768] 1 = Some s /\ wf s /\ conv_fan_sum s = 0 /\
-             conv_fan_in s = 2147483648 /\ conv_fan_out s = 2147483648) /\
-  (exists s, mk_shape [4294967295; 1] 1 = Some s /\ wf s /\ is_matrix s = true /\ fan_sum_2d s = 0).
+Lemma matrix_fans s : wf s -> is_matrix s = true ->
+  fan_sum_2d s = get s 0 + get s 1 /\ 0 < fan_sum_2d s < 2 * P32.
+Proof.
+  intros W Hm. assert (Hd : depth s <= 4) by (unfold is_matrix in Hm; apply N.leb_le in Hm; lia).
+  destruct (get4_volume s W Hd) as [Hv [H0 [H1 [H2 [H3 Hlt]]]]].
+  unfold fan_sum_2d. split; [reflexivity|].
+  assert (Hmono : forall x y, 1 <= y -> x <= x * y).
+  { intros x y Hy. rewrite <- (N.mul_1_r x) at 1. apply N.mul_le_mono_l. exact Hy. }
+  assert (get s 0 <= volume s).
+  { rewrite Hv. replace (get s 0 * get s 1 * get s 2 * get s 3) with (get s 0 * (get s 1 * get s 2 * get s 3)) by lia.
+    apply Hmono. nia. }
+  assert (get s 1 <= volume s).
+  { rewrite Hv. replace (get s 0 * get s 1 * get s 2 * get s 3) with (get s 1 * (get s 0 * get s 2 * get s 3)) by lia.
+    apply Hmono. nia. }
+  unfold P32 in *. lia.
+Qed.
+
+(* REFUTED form (the code before commit 50d7193 formed the sums in uint32): for admissible
+   shapes the uint32 sum differs from the true sum -- fan_in + fan_out = 2^32 wraps to 0. *)
+Lemma uint32_fan_sum_refuted :
+  (exists s, mk_shape [65536; 32768] 1 = Some s /\ wf s /\ depth s <= 4 /\
+             uint32_conv_fan_sum s = 0 /\ conv_fan_sum s = 4294967296) /\
+  (exists s, mk_shape [4294967295; 1] 1 = Some s /\ wf s /\ is_matrix s = true /\
+             uint32_fan_sum_2d s = 0 /\ fan_sum_2d s = 4294967296).
 Proof.
   split.
   - destruct (mk_shape [65536; 32768] 1) as [s|] eqn:E; [|vm_compute in E; discriminate].
     exists s. split; [reflexivity|].
     destruct (mk_shape_some [65536; 32768] 1 s) as [_ [Es W]];
       [repeat constructor; reflexivity|reflexivity|exact E|].
-    split; [exact W|]. subst s. vm_compute. repeat split; reflexivity.
+    split; [exact W|]. subst s. vm_compute. repeat split; try reflexivity. discriminate.
   - destruct (mk_shape [4294967295; 1] 1) as [s|] eqn:E; [|vm_compute in E; discriminate].
     exists s. split; [reflexivity|].
     destruct (mk_shape_some [4294967295; 1] 1 s) as [_ [Es W]];
@@ -482,41 +516,41 @@ Proof.
     repeat split; try lia. repeat constructor; lia.
 Qed.
 
-Lemma xavier_uniform_formula scale s : wf s ->
+Lemma xavier_uniform_formula scale s :
   (is_matrix s = false -> apply_init O C (IXavierUniform scale) s = None) /\
-  (is_matrix s = true -> volume s < U32MAX ->
+  (is_matrix s = true ->
    let bound := xavier_param scale 6 (get s 0) (get s 1) in
    apply_init O C (IXavierUniform scale) s = Some (QUniform s (sneg O bound) bound)).
 Proof.
-  intro W. cbn [apply_init]. split; intro Hm; rewrite Hm; cbn [negb]; [reflexivity|].
-  intros Hv. rewrite ratio_exact, (matrix_sum_no_wrap s W Hm Hv). reflexivity.
+  cbn [apply_init]. split; intro Hm; rewrite Hm; cbn [negb]; [reflexivity|].
+  rewrite ratio_exact. reflexivity.
 Qed.
 
-Lemma xavier_normal_formula scale s : wf s ->
+Lemma xavier_normal_formula scale s :
   (is_matrix s = false -> apply_init O C (IXavierNormal scale) s = None) /\
-  (is_matrix s = true -> volume s < U32MAX ->
+  (is_matrix s = true ->
    apply_init O C (IXavierNormal scale) s =
    Some (QNormal s (szero O) (xavier_param scale 2 (get s 0) (get s 1)))).
 Proof.
-  intro W. cbn [apply_init]. split; intro Hm; rewrite Hm; cbn [negb]; [reflexivity|].
-  intros Hv. rewrite ratio_exact, (matrix_sum_no_wrap s W Hm Hv). reflexivity.
+  cbn [apply_init]. split; intro Hm; rewrite Hm; cbn [negb]; [reflexivity|].
+  rewrite ratio_exact. reflexivity.
 Qed.
 
-Lemma xavier_conv2d_formula scale s : wf s ->
+Lemma xavier_conv2d_formula scale s :
   let fan_in := get s 0 * get s 1 * get s 2 in
   let fan_out := get s 0 * get s 1 * get s 3 in
   (4 < depth s -> apply_init O C (IXavierUniformConv2D scale) s = None /\
                   apply_init O C (IXavierNormalConv2D scale) s = None) /\
-  (depth s <= 4 -> 2 * volume s < P32 ->
+  (depth s <= 4 ->
    let bound := xavier_param scale 6 fan_in fan_out in
    apply_init O C (IXavierUniformConv2D scale) s = Some (QUniform s (sneg O bound) bound) /\
    apply_init O C (IXavierNormalConv2D scale) s =
    Some (QNormal s (szero O) (xavier_param scale 2 fan_in fan_out))).
 Proof.
-  intros W fan_in fan_out. cbn [apply_init]. split.
+  intros fan_in fan_out. cbn [apply_init]. split.
   - intro Hd. apply N.ltb_lt in Hd. rewrite Hd. split; reflexivity.
-  - intros Hd Hv. destruct (N.ltb_spec 4 (depth s)) as [H|_]; [lia|].
-    destruct (conv2d_fans s W Hd) as [_ [_ Hsum]]. rewrite !ratio_exact, (Hsum Hv). split; reflexivity.
+  - intros Hd. destruct (N.ltb_spec 4 (depth s)) as [H|_]; [lia|].
+    rewrite !ratio_exact. split; reflexivity.
 Qed.
 End Init.
 
